@@ -151,7 +151,8 @@
                 assert(-(cnt0 * eta) <= prev[n] <= cnt0 * eta);
                 assert(-eta <= sh[n] <= eta);
                 if c.0[k - 1] == 0 {
-                    assert(a[k - 1] * sh[n] == 0);
+                    let av0 = a[k - 1]; let sv0 = sh[n];
+                    assert(av0 * sv0 == 0) by (nonlinear_arith) requires av0 == 0;
                 } else {
                     assert(nz_count(c.0@, k) == cnt0 + 1);
                     assert((cnt0 + 1) * eta == cnt0 * eta + eta) by (nonlinear_arith);
@@ -318,4 +319,127 @@
         lemma_spec_ntt_len(p);
         lemma_invntt_cong(vb, spec_ntt(p));
         lemma_invntt_ntt(p);
+    }
+    // (e) one coefficient of the commitment: UseHint(h, w'_approx) == HighBits(w)
+    pub proof fn lemma_w1_coeff(g2: int, beta: int, wv: int, cs2v: int, ct0v: int, wp: int, h: int)
+        requires gamma2_ok(g2), 0 <= beta < g2, 0 <= wv < Q, 0 <= cs2v < Q, 0 <= ct0v < Q,
+            wp == (wv - cs2v + ct0v) % (Q as int),
+            spec_abs(mod_pm(cs2v, Q as int)) <= beta,
+            spec_abs(mod_pm(ct0v, Q as int)) < g2,
+            spec_abs(spec_low_bits(g2, wv - cs2v)) < g2 - beta,
+            h == (if spec_make_hint(g2, Q - ct0v, wv - cs2v + ct0v) { 1int } else { 0int }),
+        ensures spec_use_hint(g2, h, wp) == spec_high_bits(g2, wv),
+    {
+        let q = Q as int;
+        let r = wv - cs2v + ct0v;
+        lemma_cong_mod(r);
+        let rp = wp;
+        assert(0 <= rp < q && cong(rp, r));
+        // zeta = -(ct0 mod+- q): r + zeta == w - c s2 (mod q)
+        let m0 = mod_pm(ct0v, q);
+        assert(m0 == ct0v || m0 == ct0v - q) by { assert(ct0v % q == ct0v); }
+        let zeta = -m0;
+        let vp = wrapq(rp + zeta);
+        assert(0 <= vp < q);
+        assert(cong(vp, wv - cs2v)) by {
+            // vp - (wv - cs2v) is a multiple of q
+            let k = lemma_cong_witness(rp, r);
+            let e: int = if m0 == ct0v { 0 } else { 1 };
+            let f: int = if rp + zeta < 0 { 1 } else if rp + zeta >= q { -1 } else { 0 };
+            assert(vp - (wv - cs2v) == (k + e + f) * q) by (nonlinear_arith)
+                requires rp - r == k * q, r == wv - cs2v + ct0v, zeta == -m0, m0 == ct0v - e * q, vp == rp + zeta + f * q;
+            lemma_cong_from(vp, wv - cs2v, k + e + f);
+        }
+        // the hint bit is [HighBits(rp) != HighBits(vp)]
+        lemma_decompose_cong(g2, rp, r);
+        assert(cong(vp, r + (Q - ct0v))) by {
+            let k2 = lemma_cong_witness(vp, wv - cs2v);
+            assert(vp - (r + (q - ct0v)) == (k2 - 1) * q) by (nonlinear_arith) requires vp - (wv - cs2v) == k2 * q, r == wv - cs2v + ct0v;
+            lemma_cong_from(vp, r + (q - ct0v), k2 - 1);
+        }
+        lemma_decompose_cong(g2, vp, r + (Q - ct0v));
+        assert(h == (if spec_high_bits(g2, rp) != spec_high_bits(g2, vp) { 1int } else { 0int }));
+        lemma_use_make_hint(g2, rp, zeta);
+        assert(spec_use_hint(g2, h, rp) == spec_high_bits(g2, vp));
+        // HighBits(w - c s2) == HighBits(w)
+        let eps = mod_pm(cs2v, q);
+        assert(eps == cs2v || eps == cs2v - q) by { assert(cs2v % q == cs2v); }
+        lemma_decompose_cong(g2, vp, wv - cs2v);
+        lemma_high_bits_stable(g2, vp, eps, beta);
+        let wq = wrapq(vp + eps);
+        assert(0 <= wq < q);
+        assert(cong(wq, wv)) by {
+            let k3 = lemma_cong_witness(vp, wv - cs2v);
+            let e: int = if eps == cs2v { 0 } else { 1 };
+            let f: int = if vp + eps < 0 { 1 } else if vp + eps >= q { -1 } else { 0 };
+            assert(wq - wv == (k3 - e + f) * q) by (nonlinear_arith)
+                requires vp - (wv - cs2v) == k3 * q, eps == cs2v - e * q, wq == vp + eps + f * q;
+            lemma_cong_from(wq, wv, k3 - e + f);
+        }
+        lemma_cong_canonical(wq, wv);
+        assert(wv % q == wv);
+    }
+    // (f) completeness: a signature that satisfies sign_spec for a key pair that satisfies keygen_spec makes verify_spec true
+    pub proof fn lemma_c01<const K: usize, const L: usize>(xi: Seq<u8>, eta: int, pk: PublicKey<K, L>, sk: PrivateKey<K, L>, sig: Seq<u8>, mu: Seq<u8>, rnd: Seq<u8>,
+            beta: int, gamma1: int, gamma2: int, omega: int, tau: int, lam4: int)
+        requires eta_ok(eta), 1 <= K <= 8, 1 <= L <= 8, gamma2_ok(gamma2), tau >= 0, beta == tau * eta, 0 <= beta < gamma2,
+            keygen_spec(xi, eta, pk, sk),
+            sign_spec(sig, sk, mu, rnd, beta, gamma1, gamma2, omega, tau, lam4),
+            hint_canonical(sig_hint_bytes(sig, gamma1, lam4, L as int), omega, K as int),
+        ensures verify_spec(true, pk, mu, sig, beta, gamma1, gamma2, omega, tau, lam4),
+    {
+        let (a0, s1, s2, pkb) = choose|a: [[T; L]; K], s1: [R; L], s2: [R; K], pkb: Seq<u8>| #[trigger] kg_wit(xi, eta, pk, sk, a, s1, s2, pkb);
+        assert(kg_wit(xi, eta, pk, sk, a0, s1, s2, pkb));
+        let rhopp = sign_rhopp(sk.cap_k@, rnd, mu);
+        let (a, c, kappa) = choose|a: [[T; L]; K], c: R, kappa: int| #[trigger] sign_wit(sk, sig, tau, lam4, a, c, kappa)
+            && sign_commit(a, mask_ys(rhopp, kappa, gamma1, L as int), mu, sig, gamma2, lam4)
+            && sign_attempt(a, sk, mask_ys(rhopp, kappa, gamma1, L as int), c, sig, beta, gamma1, gamma2, omega, lam4)
+            && all_rejected_before(a, sk, mu, rhopp, kappa, beta, gamma1, gamma2, omega, tau, lam4);
+        let ys = mask_ys(rhopp, kappa, gamma1, L as int);
+        assert(sign_wit(sk, sig, tau, lam4, a, c, kappa) && sign_commit(a, ys, mu, sig, gamma2, lam4) && sign_attempt(a, sk, ys, c, sig, beta, gamma1, gamma2, omega, lam4));
+        lemma_expand_a_unique(sk.rho@, a, a0);
+        let cs = poly_ints(c.0);
+        let s1v = vec_ints(s1); let s2v = vec_ints(s2);
+        let zs = sig_zs(sig, gamma1, lam4, L as int);
+        let q = Q as int;
+        assert(ys.len() == L && forall|l: int| 0 <= l < L ==> (#[trigger] ys[l]).len() == 256) by { reveal(mask_ys); }
+        assert forall|l: int, n: int| 0 <= l < L && 0 <= n < 256 implies cong(#[trigger] zs[l][n], ys[l][n] + cmul(cs, sk.s_1_hat_mont[l].0)[n]) by {
+            let x = ys[l][n] + cmul(cs, sk.s_1_hat_mont[l].0)[n];
+            assert(zs[l][n] == sig_z(sig, gamma1, lam4, l, n));
+            assert(sig_z(sig, gamma1, lam4, l, n) == mod_pm(x, q));
+            lemma_cong_mod(x);
+            if x % q > q / 2 { lemma_cong_from(x % q - q, x % q, -1); lemma_cong_trans(x % q - q, x % q, x); }
+        }
+        let w1s = sgn_w1fn(a, ys, gamma2);
+        let w1v = vfy_w1fn(a, c, pk.t1_d2_hat_mont, sig, gamma1, gamma2, omega, lam4);
+        assert forall|k: int, n: int| 0 <= k < K && 0 <= n < 256 implies #[trigger] w1v(k, n) == w1s(k, n) by {
+            lemma_wapprox(a, pk, sk, eta, ys, zs, cs, s1v, s2v, k);
+            let wv = sgn_w(a, ys, k)[n];
+            let cs2v = cmul(cs, sk.s_2_hat_mont[k].0)[n]; let ct0v = cmul(cs, sk.t_0_hat_mont[k].0)[n];
+            let wp = vfy_w(a, zs, cs, pk.t1_d2_hat_mont, k)[n];
+            lemma_cmul_len2(cs, sk.s_2_hat_mont[k].0); lemma_cmul_len2(cs, sk.t_0_hat_mont[k].0);
+            assert(0 <= wv < Q) by {
+                reveal(spec_invntt);
+                let v = intt_layers(sgn_wbar_seq(a, ys, k), 0);
+                lemma_cong_mod(8_347_681 * v[n]);
+            }
+            // ||c s2|| <= beta through the ring product
+            assert(s2v[k].len() == 256);
+            assert forall|m: int| 0 <= m < 256 implies mont_of(#[trigger] sk.s_2_hat_mont[k].0[m] as int, spec_ntt(s2v[k])[m]) by { }
+            lemma_cmul_is_ring_mul(cs, sk.s_2_hat_mont[k].0, s2v[k]);
+            assert forall|m: int| 0 <= m < 256 implies -eta <= #[trigger] s2v[k][m] <= eta by { }
+            lemma_ring_mul_bound(c, s2v[k], eta, 256);
+            let rm = ring_mul(cs, s2v[k])[n];
+            assert(-beta <= rm <= beta);
+            assert(cs2v == rm % q);
+            assert(spec_abs(mod_pm(cs2v, q)) <= beta) by {
+                if rm < 0 { assert((rm + q) % q == rm + q); assert(rm % q == rm + q); } else { assert(rm % q == rm); }
+            }
+            let h = sig_h(sig, gamma1, lam4, L as int, omega, k, n);
+            lemma_w1_coeff(gamma2, beta, wv, cs2v, ct0v, wp, h);
+        }
+        let w1b = choose|w1b: Seq<u8>| #[trigger] w1_fields_ok(w1b, gamma2, K as int, w1s) && sig.subrange(0, lam4) == stream_take(shake256(mu + w1b), 0, lam4);
+        assert(w1_fields_ok(w1b, gamma2, K as int, w1v));
+        assert(verify_core(a, c, pk.t1_d2_hat_mont, mu, sig, gamma1, gamma2, omega, lam4));
+        assert(verify_wit(pk, sig, tau, lam4, a, c));
     }
